@@ -32,6 +32,11 @@ fn shape_for(prop: &str, i: usize) -> Shape {
             s.n_res = 2 + v;
             s.p_dep = 15;
             s.max_ops = 8 + 4 * v;
+            // systems whose data is one of shred's own SystemData types (what the scheduler is told is then shred's too)
+            s.p_typed = [0, 35, 70, 20][v];
+            if v == 2 {
+                s.n_res = 4;
+            }
         }
         "C02" => {
             s.p_dep = 70;
@@ -411,6 +416,19 @@ fn main() {
                     }
                     continue;
                 }
+                if prop == "C04" && i % 8 == 7 {
+                    // the async dispatcher: k dispatches run every ordinary system k times, every wait() every thread-local system once
+                    let c = asyncd::generate(&mut rng);
+                    if let Ok(Some(why)) = catch_unwind(AssertUnwindSafe(|| asyncd::run_mode(&c, true))) {
+                        let text = format!("# property=C04\n# found-by=bounded search of the real crate (async dispatcher call sequences; seed {}, case {})\n# failure: {}\n{}", seed, i, why.replace('\n', " "), c.to_text());
+                        std::fs::write(&out, text).expect("cannot write the replay file");
+                        println!("FAIL {}", why.replace('\n', " "));
+                        println!("explored={} skipped={}", explored, skipped);
+                        std::process::exit(1);
+                    }
+                    explored += 1;
+                    continue;
+                }
                 if prop == "C12" && i % 8 == 7 {
                     // the async dispatcher runs its thread-local systems inside wait(), on the calling thread, once per wait
                     let c = asyncd::generate(&mut rng);
@@ -565,6 +583,18 @@ fn main() {
             if prop == "C13" && text.lines().any(|l| l.trim() == "a Setup") {
                 let plan_text: String = text.lines().filter(|l| !l.trim_start().starts_with("a ")).map(|l| format!("{}\n", l)).collect();
                 match Case::from_text(&plan_text).map(|c| asyncd::setup_run(&c, true)) {
+                    Ok(Some(w)) => {
+                        println!("FAIL {}", w);
+                        std::process::exit(1);
+                    }
+                    _ => {
+                        println!("HOLDS");
+                        std::process::exit(0);
+                    }
+                }
+            }
+            if prop == "C04" && text.lines().any(|l| l.trim_start().starts_with("a ")) {
+                match asyncd::ACase::from_text(&text).map(|c| asyncd::run_mode(&c, true)) {
                     Ok(Some(w)) => {
                         println!("FAIL {}", w);
                         std::process::exit(1);
